@@ -171,7 +171,8 @@ def w_inter(inter: int, reply: int, days: int) -> str:
 
 
 def obligations(tier):
-    return [
+    from harness import kpair
+    return kpair.obligations(tier) + [
         CH('K_reply_all_strings', MOD, 'k_reply', timeout=120 if tier == 'quick' else 600, partitions=[4 if tier == 'quick' else 8], engine='K', regime='traced',
            encodes=['trashcli.empty.parse_reply.parse_reply'], bounds='reply: any str, len<=%d' % (4 if tier == 'quick' else 8)),
         CH('K_guard', MOD, 'k_guard', timeout=180, engine='K', regime='traced',
